@@ -93,6 +93,16 @@ Fixpoint wide_once (live : list string) (skip : nat) (h : list step) (os : list 
 Definition wide_holds (c : case) : bool :=
   wide_once [] (c_skip (k_case c)) (c_steps (k_case c)) (c_obs (k_case c)).
 
+(* model = implementation, also beyond 20 compiled callbacks when no request is "*": the comparator of the
+   pre-sort is then constantly false (C17_Plugin.less_cb_nostar), so the insertion sort of the model and any
+   stable sort - sort.SliceStable's merge path included - leave the slice as it is (presort_nostar).  With a
+   "*" request and more than 20 calls the comparison is skipped as before (C17_Check.model_agrees). *)
+Definition nostar_hist (h : list step) : bool :=
+  forallb (fun s => negb (is_star (st_before s)) && negb (is_star (st_after s))) h.
+Definition model_agrees_k (c : C17_Check.case) : bool :=
+  (Nat.ltb max_callbacks (length (c_steps c)) && negb (nostar_hist (c_steps c)))
+  || list_eqb obs_eqb (c_obs c) (skipn (c_skip c) (run (c_steps c))).
+
 Definition check_case (c : case) : N :=
-  code_of (model_agrees (k_case c) && sig_agrees c && gets_agree c)
+  code_of (model_agrees_k (k_case c) && sig_agrees c && gets_agree c)
           (spec_holds (k_case c) && wide_holds c).
